@@ -269,6 +269,55 @@ proof { lemma_alt_wf(a0, b0); }
 
 
 F_CAST = 'scnr/src/internal/comparable_ast.rs'
+F_CC = 'scnr/src/internal/character_class.rs'
+F_REG = 'scnr/src/internal/character_class_registry.rs'
+
+
+cc_new = Fn(F_CC, 'CharacterClass', 'new', ret='r', spec='ensures r.id == id, r.ast.0 == ast', props=['C02'])
+
+add_character_class = Fn(F_REG, 'CharacterClassRegistry', 'add_character_class', ret='id', props=['C02'],
+    spec="""
+requires old(self).view().len() < u32::MAX
+ensures (id.0 as int, final(self).view()) == reg_add(old(self).view(), *ast)
+""",
+    edits=[
+        Ins('body_start', None, 'let ghost reg = self.view();'),
+        Replace('E3+E6', 'if let Some(id) = self.character_classes.iter().position(|cc| $body) {', """
+let __cl0 = |cc: &CharacterClass| -> (b: bool) ensures b == cc_same(cc, &character_class) { $body };
+let ghost g = |cc: CharacterClass| cc_same(&cc, &character_class);
+let mut __it = self.character_classes.iter();
+let ghost rem = __it.remaining();
+proof {
+    assert(models_pred(__cl0, g));
+    assert(rem.len() == self.character_classes@.len());
+    assert(forall|i: int| 0 <= i < rem.len() ==> *#[trigger] rem[i] == self.character_classes@[i]);
+    assert(character_class.0 == *ast);
+}
+let __pos = __it.position(__cl0);
+proof {
+    assert(models_pred(__cl0, g));
+    match __pos {
+        Some(k) => {
+            assert(g(*rem[k as int]));
+            assert forall|j: int| 0 <= j < k implies !same_class(#[trigger] reg[j], *ast) by { assert(!g(*rem[j])); }
+            assert(reg_has(reg, *ast, k as int));
+            // the first equal entry is unique
+            let c = choose|i: int| reg_has(reg, *ast, i);
+            if c < k { assert(!same_class(reg[c], *ast)); }
+            if k < c { assert(!same_class(reg[k as int], *ast)); }
+        }
+        None => {
+            assert forall|i: int| !reg_has(reg, *ast, i) by { if 0 <= i < reg.len() { assert(!g(*rem[i])); } }
+        }
+    }
+}
+if let Some(id) = __pos {
+proof { assert(self.view() =~= reg); }
+""", why='closure typed and hoisted (E3); iter().position(..) chain split (E6)'),
+        Ins('after_stmt', 'self.character_classes.push($_);', """
+proof { assert(self.view() =~= reg.push(*ast)); }
+"""),
+    ])
 
 nfa_new = Fn(F_NFA, 'Nfa', 'new', ret='r', props=['C02'],
     spec='ensures ids_ok(r), nfa_view(r) == v_new(), r.states@.len() == 1',
@@ -512,22 +561,40 @@ impl Default for Pattern {
 #[verifier::external_body] pub fn verif_unsupported() -> ScnrError { unimplemented!() }
 #[verifier::external_body] pub fn verif_ast_to_string(a: &Ast) -> String { unimplemented!() }
 
-/// the registry of character classes: the sequence of registered leaf ASTs (id = index)
-#[verifier::external_body] pub struct CharacterClassRegistry { _private: () }
-impl CharacterClassRegistry {
-    pub uninterp spec fn view(&self) -> Seq<Ast>;
-
-    // TRUSTED contract of CharacterClassRegistry::add_character_class (position() with ComparableAst::eq = same_class):
-    // the id of the first equal entry, else a new entry at the end
-    #[verifier::external_body]
-    pub fn add_character_class(&mut self, ast: &Ast) -> (id: CharClassID)
-        requires old(self).view().len() < u32::MAX
-        ensures (id.0 as int, final(self).view()) == reg_add(old(self).view(), *ast)
-    { unimplemented!() }
-}
 ''', label='IndexMut<StateID> for Vec<T> (from impl_id!), opaque Pattern / registry'),
         RawFile('../u_ast/ast_types.rs'),
         Struct(F_CAST, 'ComparableAst', derive=[]),
+        Raw('''
+// TRUSTED: `impl PartialEq for ComparableAst` (compares the Display strings of class nodes, `c`/`kind` of literals): it IS same_class
+impl PartialEq for ComparableAst {
+    #[verifier::external_body]
+    fn eq(&self, other: &Self) -> (r: bool) ensures r == same_class(self.0, other.0) { unimplemented!() }
+}
+pub open spec fn models_pred<'a, T: 'a, P: FnMut(&'a T) -> bool>(p: P, g: spec_fn(T) -> bool) -> bool {
+    forall|x: &'a T, b: bool| call_ensures(p, (x,), b) ==> b == g(*x)
+}
+pub assume_specification<'a, T, P: FnMut(&'a T) -> bool>[ <std::slice::Iter<'a, T> as Iterator>::position ](it: &mut std::slice::Iter<'a, T>, p: P) -> (r: Option<usize>)
+    where std::slice::Iter<'a, T>: Sized
+    requires
+        (*old(it)).obeys_prophetic_iter_laws(),
+        forall|x: &'a T| call_requires(p, (x,)),
+    ensures
+        r matches Some(k) ==> k < (*old(it)).remaining().len(),
+        forall|g: spec_fn(T) -> bool, i: int| #![trigger models_pred(p, g), (*old(it)).remaining()[i]]
+            models_pred(p, g) && 0 <= i < (*old(it)).remaining().len() && (r matches Some(k) ==> i <= k)
+                ==> g(*(*old(it)).remaining()[i]) == (r matches Some(k) && i == k);
+''', label='trusted: ComparableAst::eq is same_class; Iterator::position contract'),
+        Struct(F_CC, 'CharacterClass', derive=[]),
+        Struct(F_REG, 'CharacterClassRegistry', derive=[]),
+        Raw('''
+pub open spec fn cc_same(cc: &CharacterClass, other: &ComparableAst) -> bool { same_class(cc.ast.0, other.0) }
+impl CharacterClassRegistry {
+    /// the registered leaf ASTs, id = index
+    pub open spec fn view(&self) -> Seq<Ast> {
+        Seq::new(self.character_classes@.len(), |i: int| self.character_classes@[i].ast.0)
+    }
+}
+''', label='registry view'),
         Raw('''
 // derived Clone / Default (rule E4): field-wise
 impl Clone for Nfa {
@@ -563,6 +630,6 @@ pub open spec fn ids_ok(n: Nfa) -> bool {
         new_state_fn, add_state, set_start, set_end, end_state, new_state, add_eps, zero_or_one, one_or_more, zero_or_more,
         state_is_empty, is_empty, shift_ids, append, concat, alternation,
         Fn(F_NFA, 'Nfa', 'set_pattern', external_body=True, spec='ensures final(self).states == old(self).states, final(self).start_state == old(self).start_state, final(self).end_state == old(self).end_state', trusted_reason='pattern text is carried along only'),
-        nfa_new, add_transition, try_from_ast2,
+        cc_new, add_character_class, nfa_new, add_transition, try_from_ast2,
     ],
 )
